@@ -53,9 +53,13 @@ func TestFsChild(t *testing.T) {
 	key := os.Getenv("VERIF_KEY")
 	n, _ := strconv.Atoi(os.Getenv("VERIF_LEN"))
 	switch mode {
-	case "cut":
+	case "cut", "killcut":
+		// cut: writing past the limit fails (EFBIG); killcut: the signal keeps its default action and the process dies in
+		// the write that reaches the limit, with the bytes before the limit on disk
 		lim, _ := strconv.Atoi(os.Getenv("VERIF_LIMIT"))
-		signal.Ignore(syscall.SIGXFSZ)
+		if mode == "cut" {
+			signal.Ignore(syscall.SIGXFSZ)
+		}
 		c, err := openFS(dir, enc)
 		if err != nil {
 			fmt.Println("OPENERR", err)
@@ -218,6 +222,42 @@ func TestAtomicity(t *testing.T) {
 					}
 					add("CUT enc=%v prev=%v prevlen=%+d len=%d limit=%d set_ok=%v get=%s %s", enc, prev, prevLen, n, k, setOK, got, verdict)
 					os.RemoveAll(dir)
+					if k%3 == 0 || k == total-1 {
+						// the same Set, but the process is killed by the kernel in the write that reaches the limit
+						dir2, _ := os.MkdirTemp("", "verif-killcut-")
+						if prev {
+							c2, err := openFS(dir2, enc)
+							if err != nil {
+								t.Fatal(err)
+							}
+							if err := c2.Set(key, allowed["previous"]); err != nil {
+								t.Fatal(err)
+							}
+						}
+						cmd2 := child("VERIF_CHILD=killcut", "VERIF_DIR="+dir2, "VERIF_ENC="+map[bool]string{true: "1", false: "0"}[enc],
+							"VERIF_KEY="+key, "VERIF_LEN="+strconv.Itoa(n), "VERIF_LIMIT="+strconv.Itoa(k))
+						co2, _ := cmd2.CombinedOutput()
+						done2 := strings.Contains(string(co2), "SETRESULT true")
+						c2, err := openFS(dir2, enc)
+						if err != nil {
+							t.Fatal(err)
+						}
+						v2, gerr2 := c2.Get(key)
+						got2 := describeGet(v2, gerr2, allowed)
+						verdict2 := "ok"
+						switch {
+						case strings.HasPrefix(got2, "PARTIAL") || strings.HasPrefix(got2, "error"):
+							verdict2 = "BAD"
+						case done2 && got2 != "value:new":
+							verdict2 = "BAD"
+						case !done2 && prev && got2 != "value:previous" && got2 != "value:new":
+							verdict2 = "BAD"
+						case !done2 && !prev && got2 != "absent" && got2 != "value:new":
+							verdict2 = "BAD"
+						}
+						add("CUT kill=true enc=%v prev=%v prevlen=%+d len=%d limit=%d set_ok=%v get=%s %s", enc, prev, prevLen, n, k, done2, got2, verdict2)
+						os.RemoveAll(dir2)
+					}
 				}
 			}
 		}
